@@ -1095,13 +1095,19 @@ fn table_to_render_tree<'a, T: Write>(
     pending(input, move |_, rowset| {
         let mut rows = vec![];
         // Anything else with content (in practice a <caption>) is kept as a
-        // block above the table.
-        let mut captions = vec![];
+        // block above the table, or below it if it follows the rows, so that
+        // text stays in document order.
+        let mut above = vec![];
+        let mut below = vec![];
         for mut bodynode in rowset {
             if let RenderNodeInfo::TableBody(ref mut body) = bodynode.info {
                 rows.append(body);
             } else if !bodynode.is_shallow_empty() {
-                captions.push(bodynode);
+                if rows.is_empty() {
+                    above.push(bodynode);
+                } else {
+                    below.push(bodynode);
+                }
             }
         }
         let table = if rows.is_empty() {
@@ -1112,11 +1118,17 @@ fn table_to_render_tree<'a, T: Write>(
                 computed,
             ))
         };
-        if captions.is_empty() {
+        if above.is_empty() && below.is_empty() {
             table
         } else {
-            let mut nodes = vec![RenderNode::new(RenderNodeInfo::Block(captions))];
+            let mut nodes = vec![];
+            if !above.is_empty() {
+                nodes.push(RenderNode::new(RenderNodeInfo::Block(above)));
+            }
             nodes.extend(table);
+            if !below.is_empty() {
+                nodes.push(RenderNode::new(RenderNodeInfo::Block(below)));
+            }
             Some(RenderNode::new(RenderNodeInfo::Container(nodes)))
         }
     })
